@@ -60,7 +60,7 @@ def gen_render():
     from bs4.builder._htmlparser import HTMLParserTreeBuilder
     from html.parser import HTMLParser
 
-    t = HEADER + "import BSModel.Model.Reparse\nnamespace BS.Gen.Render\nopen BS.Render\n"
+    t = HEADER + "import BSModel.Model.Reparse\nnamespace BS.Gen.C05\nopen BS.Render\n"
     # string classes
     t += "/-- `PREFIX`, `SUFFIX`, and whether `output_ready` is `PreformattedString.output_ready` -/\n"
     t += "def liveClsInfo : SCls → ClsInfo\n"
@@ -83,6 +83,13 @@ def gen_render():
         items = [f"({reg_name(k)}, {fmt_spec(v)})" for k, v in sorted(reg.items(), key=lambda kv: str(kv[0]))]
         t += f"/-- `{nm}`: {', '.join(str(k) for k in sorted(reg, key=str))} -/\n"
         t += f"def {nm} : List (Option PStr × FmtSpec) := [\n  " + ",\n  ".join(items) + "]\n"
+    probe = lambda x: x
+    t += "/-- the formatter `formatter_for_name` makes of a callable: `HTMLFormatter(entity_substitution=fn)` (false) / `XMLFormatter(entity_substitution=fn)` (true); the function code is a placeholder -/\n"
+    t += "def ctorDefaults : Bool → FmtSpec\n"
+    t += f"  | false => {fmt_spec(HTMLFormatter(entity_substitution=probe))}\n"
+    t += f"  | true => {fmt_spec(XMLFormatter(entity_substitution=probe))}\n"
+    t += "/-- the registry `formatter_for_name` consults, by `_is_xml` -/\n"
+    t += "def registryOf : Bool → List (Option PStr × FmtSpec)\n  | false => htmlRegistry\n  | true => xmlRegistry\n"
     t += f"/-- `Formatter.HTML_DEFAULTS['cdata_containing_tags']` -/\n"
     from bs4.formatter import Formatter
     t += f"def htmlCdataTags : List PStr := [{', '.join(lean_str(x) for x in sorted(Formatter.HTML_DEFAULTS['cdata_containing_tags']))}]\n"
@@ -117,7 +124,7 @@ def gen_render():
     t += f"  startendChecks := {'true' if startend_checks() else 'false'}\n"
     t += f"/-- void: {' '.join(void)}; preserve: {' '.join(pres)}; containers: {' '.join(k for k, _ in cont)} -/\n"
     t += "def livePCfgDoc : Unit := ()\n"
-    t += "end BS.Gen.Render\n"
+    t += "end BS.Gen.C05\n"
     yield "Render.lean", t
 
 
